@@ -167,4 +167,44 @@ impl Gf {
         }
         Some(b)
     }
+    /// error values y_1..y_w (all non-zero if possible) for the given degrees such that the syndromes
+    /// S_1..S_m of the error polynomial sum_i y_i x^{deg_i} vanish (m < w)
+    pub fn values_with_zero_syndromes(&self, degs: &[usize], m: usize, seed_vals: &[u8]) -> Option<Vec<u8>> {
+        let w = degs.len();
+        if m >= w {
+            return None;
+        }
+        // choose the last w-m values freely, solve for the first m: sum_{i<m} y_i a^{j d_i} = - sum_{i>=m} y_i a^{j d_i}
+        let mut a: Vec<Vec<u8>> = (1..=m).map(|j| (0..m).map(|i| self.pow(j * degs[i])).collect()).collect();
+        let mut b: Vec<u8> = (1..=m)
+            .map(|j| (m..w).fold(0u8, |acc, i| acc ^ self.mul(seed_vals[i - m], self.pow(j * degs[i]))))
+            .collect();
+        for col in 0..m {
+            let piv = (col..m).find(|r| a[*r][col] != 0)?;
+            a.swap(col, piv);
+            b.swap(col, piv);
+            let inv = self.inv(a[col][col]);
+            for c in col..m {
+                a[col][c] = self.mul(a[col][c], inv);
+            }
+            b[col] = self.mul(b[col], inv);
+            for r in 0..m {
+                if r != col && a[r][col] != 0 {
+                    let f = a[r][col];
+                    for c in col..m {
+                        let t = self.mul(f, a[col][c]);
+                        a[r][c] ^= t;
+                    }
+                    let t = self.mul(f, b[col]);
+                    b[r] ^= t;
+                }
+            }
+        }
+        let mut y = b;
+        y.extend_from_slice(&seed_vals[..w - m]);
+        if y.iter().any(|v| *v == 0) {
+            return None;
+        }
+        Some(y)
+    }
 }
